@@ -4,8 +4,8 @@
      eval_lifted_spec   eval_lifted  d eps oo s pm p = if fdiv0 .. phi then Err EOther else Ok (holds .. e s phi)
      eval_g_lifted      ground_pre d pm p = Ok g -> eval_g d eps oo s g = eval_lifted d eps oo s pm p
      eval_g_spec        the two composed: the grounded condition evaluates to [holds] of the denoted formula
-   where oo is the optional object table: with [Some objs] for every formula, with [None] (what a 'when' antecedent
-   gets today) for forall-free formulas only; [eval_none_refuted] shows the latter restriction is needed. *)
+   where oo is the optional object table: with [Some objs] for every formula, with [None] (an operator built
+   without problem objects) for forall-free formulas only; [eval_none_refuted] shows the latter restriction is needed. *)
 From Coq Require Import List Ascii String Bool Arith PrimFloat Lia.
 From Verif Require Import Base.Result Base.Str Base.PyDict Model.Types Model.Domain Model.Exec Spec.Pddl Spec.Subst
   Proofs.C02_Sub Proofs.C20_Defs Proofs.C20_Subst.
@@ -571,7 +571,8 @@ Proof.
   exact (eval_g_spec dom eps s (Some objs) pm pm p g phi Hg Hd I (env_agree_refl pm) Hns Hok).
 Qed.
 
-(* without one (what Model.Exec.antecedents_hold passes): forall-free formulas only; the table on the right is arbitrary *)
+(* without one (an operator built without problem objects; 'when' antecedents before the repair D37): forall-free
+   formulas only; the table on the right is arbitrary *)
 Theorem C02_eval_g_none (dom : mdomain) (eps : float) (s : state) (objs : objects)
         (pm : pmap) (p : mpre) (g : gpre) (phi : form) :
   ground_pre dom pm p = Ok g ->
